@@ -1,7 +1,9 @@
 //go:build verif
 
 // C28 correspondence driver: complete enumeration of (Felix raw value) x (BGPConfiguration state) x (pool mode, family).
-// Felix side: the real config.Config (New + UpdateFrom) and the real calc.EncapsulationCalculator fed with the pool.
+// Felix side: the real config.Config (New + UpdateFrom); the pool (with attributes disabled / natOutgoing / disableBGPExport) goes either
+// through the real calc.EncapsulationResolver (syncer path: OnPoolUpdate + InSync -> OnEncapUpdate) or, as a v3 IPPool, through the real
+// calc.EncapsulationCalculator (start-up path, as daemon.go does).
 // confd side: the real clusterRoutePolicyFromBGPConfig / programsPool / processIPPools (shim VerifC28).
 // One JSON line per case carrying the case as a Coq term of type Verif.C28.Spec.case.
 package main
@@ -21,6 +23,7 @@ import (
 	confd "github.com/projectcalico/calico/confd/pkg/backends/calico"
 	"github.com/projectcalico/calico/felix/calc"
 	"github.com/projectcalico/calico/felix/config"
+	api2 "github.com/projectcalico/calico/libcalico-go/lib/backend/api"
 	"github.com/projectcalico/calico/libcalico-go/lib/backend/encap"
 	"github.com/projectcalico/calico/libcalico-go/lib/backend/model"
 	cnet "github.com/projectcalico/calico/libcalico-go/lib/net"
@@ -104,10 +107,30 @@ func felixSide(raw *string, m modeT, v4 bool, fl flagsT, api bool) felixObs {
 		pool := &model.IPPool{CIDR: *n, IPIPMode: m.ipip, VXLANMode: m.vxlan, IPAM: true, Disabled: fl.disabled, Masquerade: fl.nat, DisableBGPExport: fl.nobgp}
 		kvp = &model.KVPair{Key: model.IPPoolKey{CIDR: netip.MustParsePrefix(cidr)}, Value: pool}
 	}
-	ec := calc.NewEncapsulationCalculator(cfg, &model.KVPairList{KVPairs: []*model.KVPair{kvp}})
+	if api {
+		// as daemon.go does at start-up: a calculator over the listed v3 pools
+		ec := calc.NewEncapsulationCalculator(cfg, &model.KVPairList{KVPairs: []*model.KVPair{kvp}})
+		return felixObs{cfg.ProgramClusterRoutes, cfg.ProgramIPIPClusterRoutes(), cfg.ProgramNoEncapClusterRoutes(),
+			[4]bool{ec.IPIPEnabled(), ec.VXLANEnabled(), ec.VXLANEnabledV6(), ec.NoEncapNeeded()}}
+	}
+	// as the calculation graph does: the EncapsulationResolver fed by the syncer, reporting through OnEncapUpdate
+	cb := &encapSink{}
+	res := calc.NewEncapsulationResolver(cfg, cb)
+	res.OnPoolUpdate(api2.Update{KVPair: *kvp, UpdateType: api2.UpdateTypeKVNew})
+	res.OnStatusUpdate(api2.InSync)
+	if cb.n != 1 {
+		panic(fmt.Sprintf("EncapsulationResolver reported %d times", cb.n))
+	}
 	return felixObs{cfg.ProgramClusterRoutes, cfg.ProgramIPIPClusterRoutes(), cfg.ProgramNoEncapClusterRoutes(),
-		[4]bool{ec.IPIPEnabled(), ec.VXLANEnabled(), ec.VXLANEnabledV6(), ec.NoEncapNeeded()}}
+		[4]bool{cb.last.IPIPEnabled, cb.last.VXLANEnabled, cb.last.VXLANEnabledV6, cb.last.NoEncapNeeded}}
 }
+
+type encapSink struct {
+	last config.Encapsulation
+	n    int
+}
+
+func (e *encapSink) OnEncapUpdate(enc config.Encapsulation) { e.last = enc; e.n++ }
 
 // pool attributes that must not matter for ownership
 type flagsT struct{ disabled, nat, nobgp bool }
